@@ -14,7 +14,7 @@ use cw_utils::{Duration, Expiration};
 use serde::{Deserialize, Serialize};
 use std::collections::BTreeMap;
 
-const DENOMS: [&str; 2] = ["uatom", "ubtc"]; // sorted: index = model id
+const DENOMS: [&str; 3] = ["uatom", "ubtc", "UATOM"]; // index = model id; the third differs from the first by case only
 const ANOMALY: usize = 999_999;
 const RICH: u128 = 1u128 << 100;
 
@@ -578,6 +578,11 @@ pub fn generate(seed: u64, case: u64, max_steps: usize) -> Ran {
         for _ in 0..r.below(5) {
             members.push((pick_arg(&mut r, n), pick_weight(&mut r)));
         }
+        // a verbatim repeated entry (same address, same weight), not adjacent when there is room
+        if !members.is_empty() && r.chance(1, 6) {
+            let d = members[0].clone();
+            members.push(d);
+        }
     }
     let token = if r.chance(1, 2) { Tok::Native(r.below(2) as usize) } else { Tok::Cw20(0) };
     let tpw = Uint128::new(match r.below(10) {
@@ -702,6 +707,7 @@ pub fn generate(seed: u64, case: u64, max_steps: usize) -> Ran {
                             let funds = match r.below(12) {
                                 0 => vec![],
                                 1 => vec![(1 - *d, Uint128::new(nn.max(1)))],
+                                3 => vec![(2 - 2 * *d.min(&1), Uint128::new(nn.max(1)))], // "UATOM" against "uatom" (or "uatom" against "ubtc")
                                 2 => vec![(0, Uint128::new(nn.max(1))), (1, Uint128::new(1))],
                                 _ => vec![(*d, Uint128::new(nn.max(1)))],
                             };
